@@ -26,6 +26,9 @@ def searches(ref, W, k):
     for typ in ref.types:
         cands = [p for p in sorted(W.store.paths) if ref.natural(p)[0] == typ] + [s for s in W.leaves if ref.natural(s)[0] == typ]
         if not cands:
+            from mc import datagen
+            cands = [p for p in datagen.closure_list(ref, W.leaves) if ref.natural(p)[0] == typ]
+        if not cands:
             continue
         for base in (cands[0], cands[-1]):
             segs = base.split("/")
